@@ -139,7 +139,7 @@ def shrink(exe, drv, case, key, failing_op, wd, budget=40):
     """drop ops after the failing one, then try to drop earlier ops one at a time (keeping the first op of each slot)"""
     ops = case["ops"][:failing_op + 1]
     best = dict(case, ops=ops)
-    tries = 3 if key.get("kind") == "fixupL_order" else 1
+    tries = 3 if key.get("kind") in ("fixupL_order", "user_workspace_thread_overlap") else 1
     if not still_fails(exe, drv, best, key, wd, tries):
         return case
     i = len(ops) - 2
@@ -157,7 +157,7 @@ def run(ctx):
     quick = ctx.quick()
     ctx.cov["rule"] = ("random op sequences (length <= %d) over {first factor, refactor(usepr yes/no, fresh or perturbed values), "
                        "solve with existing factors (trans N/T, 1-3 rhs), destroy + first again, refactor with a zero column, "
-                       "superlu_?QuerySpace, lwork=-1 query} on one session; precision s/d/c/z, n in 1..%d, 7 pattern families with a "
+                       "superlu_?QuerySpace, lwork=-1 query (must leave A, L, U, perm_r, perm_c, etree/colcnt_h/part_super_h as they were)} on one session; precision s/d/c/z, n in 1..%d, 7 pattern families with a "
                        "zero-free diagonal, threads 1-4 varying per call, system or user workspace, expert driver or "
                        "p?gstrf_init/p?gstrf/?gstrs per call, panel/relax/maxsuper/rowblk/colblk per session; plus 'twin' sequences "
                        "(two sessions on one pattern and precision, ASan build) and 'relax_change' sequences.  Every op is one "
@@ -188,7 +188,7 @@ def run(ctx):
     for f in sorted(glob.glob(os.path.join(vf.VERIF, "corpus", "C08", "*.json"))):
         j = json.load(open(f))
         jobs.append((exe_asan if j.get("asan") else exe, drv, j["case"], wd, "corpus_" + os.path.basename(f)[:-5], True))
-    ncases = 500 if quick else 6000
+    ncases = 2500 if quick else 16000
     for k in range(ncases):
         if quick:
             L, nmax = ctx.rng.choice([4, 8, 8, 12]), ctx.rng.choice([8, 12, 14])
@@ -197,11 +197,11 @@ def run(ctx):
         case = pl.gen_c08_case(ctx.rng, L, nmax)
         case["meta"]["stream"] = "single"
         jobs.append((exe, drv, pl.case_to_json(case), wd, "g%d" % k, True))
-    for k in range(40 if quick else 400):
+    for k in range(150 if quick else 1000):
         jobs.append((exe_asan, drv, pl.case_to_json(gen_twin_case(ctx.rng, 10 if quick else 14)), wd, "t%d" % k, True))
-    for k in range(12 if quick else 120):
+    for k in range(20 if quick else 200):
         jobs.append((exe_asan, drv, pl.case_to_json(gen_relax_case(ctx.rng, 12)), wd, "r%d" % k, True))
-    for k in range(20 if quick else 300):      # the single-session stream once more under ASan (stale pointers do not always crash)
+    for k in range(100 if quick else 800):      # the single-session stream once more under ASan (stale pointers do not always crash)
         case = pl.gen_c08_case(ctx.rng, 8, 10)
         case["meta"]["stream"] = "single_asan"
         jobs.append((exe_asan, drv, pl.case_to_json(case), wd, "a%d" % k, True))
@@ -239,7 +239,8 @@ def run(ctx):
         key = json.loads(ks)
         job, r, f = min(lst, key=lambda x: (x[0][2]["ops"].__len__(), x[2]["op"]))
         case = pl.case_from_json(job[2])
-        small = shrink(job[0], drv, case, key, f["op"], wd) if key.get("kind") not in ("fixupL_order",) else dict(case, ops=case["ops"][:f["op"] + 1])
+        small = shrink(job[0], drv, case, key, f["op"], wd) if key.get("kind") not in ("fixupL_order", "user_workspace_thread_overlap") \
+            else dict(case, ops=case["ops"][:f["op"] + 1])
         rep = {"case": pl.case_to_json(small), "asan": job[0] == exe_asan, "key": key, "what": f["what"], "occurrences": len(lst)}
         ctx.violation("%s  [%d occurrence(s)]" % (f["what"][:700], len(lst)), rep, key=key, found_input=True)
 
@@ -274,7 +275,7 @@ def replay(ctx, obj):
     exe = build(ctx, "asan" if rep.get("asan") else "hooks")
     drv = ctx.ocaml_model("persist")
     key = rep.get("key", {})
-    tries = 400 if key.get("kind") == "fixupL_order" else 1
+    tries = 400 if key.get("kind") in ("fixupL_order", "user_workspace_thread_overlap") else 1
     for t in range(tries):
         r = eval_case((exe, drv, rep["case"], ctx.bdir, "replay", True))
         hit = [f for f in r["fails"] if f["key"] == key] or ([] if key else r["fails"])
